@@ -184,6 +184,7 @@ def cases():
         ('it3', 0.01, [(0.2, 0.8), (0.5, 0.5), (0.5001, 0.4999), (0.5, 0.5)], True),
         ('bad_y1', 0.01, [(1.3, -0.3)], True),                          # validator rejects the first iterate
         ('it1_membrane', 0.01, [(0.7, 0.3), (0.7, 0.3)], False),
+        ('it1_units', 0.01, [(0.7, 0.3), (0.7, 0.3)], 'units'),           # user-supplied permeances stated in SI / GPU
     ]
     for name, prec, shadows, given in loop_cfgs:
         for mode, ct, xb in (('temp', 'NRTL', 'weight'), ('press', 'UNIQUAC', 'molar')):
@@ -205,15 +206,15 @@ def cases():
                     return p.calculate_partial_fluxes(
                         feed_temperature=V('T', 333.15), composition=x, precision=V('prec', prec),
                         permeate_temperature=tp, permeate_pressure=pp,
-                        first_component_permeance=sym_permeance('P1', 0.05)[0] if given else None,
-                        second_component_permeance=sym_permeance('P2', 0.0005)[0] if given else None,
+                        first_component_permeance=sym_permeance('P1', 0.05, *(['SI'] if given == 'units' else []))[0] if given else None,
+                        second_component_permeance=sym_permeance('P2', 0.0005, *(['GPU'] if given == 'units' else []))[0] if given else None,
                         calculation_type=ct)
             _, mt = sym_mixture()
             _, xt = sym_composition('x', 0.3, xb)
             tpt, ppt = mode_text(mode)
             sa = '(Build_SolveArgs N T %s prec %s %s %s %s %s)' % (
-                xt, tpt, ppt, '(Some (Build_Permeance N P1 KG))' if given else 'None',
-                '(Some (Build_Permeance N P2 KG))' if given else 'None', act_text(ct))
+                xt, tpt, ppt, ('(Some (Build_Permeance N P1 %s))' % ('SI' if given == 'units' else 'KG')) if given else 'None',
+                ('(Some (Build_Permeance N P2 %s))' % ('GPU' if given == 'units' else 'KG')) if given else 'None', act_text(ct))
 
             def call(spec='false', info=info, mt=mt, sa=sa):
                 # loop entries observed = driving-force evaluations; the lemma holds for every cap above them
@@ -304,6 +305,7 @@ def cap_lemma():
         return (Sym('var', ('J1',), j[0]), Sym('var', ('J2',), j[1]))
     outcome = 'none'
     sym.reset()
+    sym.PC_LIMIT[0] = 400000        # the cap observation legitimately decides several comparisons per iteration
     with sym.patched(), patch_attr(Pervaporation, 'get_partial_fluxes_from_permeate_composition', stub):
         try:
             p.calculate_partial_fluxes(V('T', 333.15), x, V('prec', 1e-4), V('Tp', 280.0), None,
@@ -313,7 +315,10 @@ def cap_lemma():
             outcome = 'ValueError'
         except Exception as e:
             outcome = type(e).__name__
+        except sym.TraceEscape as e:
+            outcome = 'escape (%s)' % e
     sym.reset()
+    sym.PC_LIMIT[0] = 4000
     if outcome != 'ValueError':
         return Case('solver_cap', None, None, None, raw_stmt='False',
                     note='no ValueError on a never-converging iteration: %s after %d evaluations' % (outcome, count[0]))
